@@ -17,7 +17,7 @@ RULE = ('Hypothesis-generated libraries with known truth from the simulator (1..
         'varying R2 ends and soft clips). Part iterator: MoleculeIterator over the BAM with hamming 0/1/2, radius 0 or >0 '
         '(scCHIC), max-fragments cap; the partition is checked for soundness (shared cell/strand/contig, sites connected '
         'within the radius, UMIs connected within the distance) and, for hamming 0 and radius 0, for equality with the '
-        'truth classes. Part tagger: the same libraries through the command line; per molecule (mi tag) exactly one '
+        'truth classes; a quarter of the cases run the same reads through the plain Fragment/Molecule classes (soundness: one cell, one contig, one strand, UMIs linked; every fragment once). Part tagger: the same libraries through the command line; per molecule (mi tag) exactly one '
         'fragment without duplicate bit, RC a permutation of 0..n-1, af=n, TF=n+overflow; histories: re-tagging the '
         'tagged BAM and tagging an input that already carries random duplicate bits and RC tags give the same flags and '
         'tags. Non-trivial: >=1 molecule with >=2 fragments and >=2 molecules sharing a site but differing in UMI, cell or '
@@ -48,6 +48,9 @@ def strategy(kind):
                'cap': draw(st.sampled_from([None, None, None, 1, 2, 3])),
                'eject': draw(st.sampled_from([10000, 10000, 0, 3, 10])),
                'prior_hamming': draw(st.sampled_from([None, None, 2, 1]))}
+        if kind == 'iterator':
+            # the same reads through the plain Fragment / Molecule classes (assignment by mapping coordinates)
+            run['plain'] = draw(st.sampled_from([False, False, False, True]))
         if kind == 'tagger':
             run['history'] = draw(st.sampled_from(['fresh', 'retag', 'preset']))
             run['preset_seed'] = draw(st.integers(0, 10 ** 6))
@@ -103,7 +106,7 @@ def check_soundness(mols, truth, run, out, where):
         if len({k[2] for k in keys}) > 1:
             out.bad('%s:molecule-mixes-strands' % where, 'keys %r run %r' % (keys, run))
         sites = sorted({k[3] for k in keys})
-        if any(b - a > r for a, b in zip(sites, sites[1:])):
+        if any(b - a > r for a, b in zip(sites, sites[1:])) and not run.get('plain'):
             out.bad('%s:molecule-mixes-sites-beyond-radius' % where, 'sites %r radius %d run %r' % (sites, r, run))
         umis = sorted({k[4] for k in keys})
         # connected under distance <= h
@@ -131,8 +134,13 @@ def eval_iterator(case):
     try:
         write_bam(bam, contigs, records)
         mc, fc = classes(run['method'])
+        plain = bool(run.get('plain'))
+        if plain:
+            from singlecellmultiomics.molecule import Molecule
+            from singlecellmultiomics.fragment import Fragment
+            mc, fc = Molecule, Fragment
         fargs = {'umi_hamming_distance': run['hamming']}
-        if run['method'] == 'chic':
+        if run['method'] == 'chic' and not plain:
             fargs['assignment_radius'] = run['radius']
         margs = {'max_associated_fragments': run['cap']} if run['cap'] else {}
         mols = []
@@ -158,8 +166,12 @@ def eval_iterator(case):
         mols_valid = [[s for s in g if truth[s]['cls'] == 'valid'] for g in mols]
         mols_valid = [g for g in mols_valid if g]
         check_soundness(mols_valid, truth, run, out, 'iterator')
-        seen = collections.Counter(s for g in mols + overflow for s in g)
         valid_serials = {s for s, t in truth.items() if t['cls'] == 'valid'}
+        seen = collections.Counter(s for g in mols + overflow for s in g)
+        if plain:
+            # half-mapped / orphan pairs are un-paired by the mate iterator (pysamiterators) and reach the plain classes as
+            # two single-read fragments: only the simulated valid pairs are asserted to be emitted once
+            seen = collections.Counter({s: v for s, v in seen.items() if s in valid_serials})
         if any(v > 1 for s, v in seen.items()):
             out.bad('iterator:fragment-in-two-molecules', '%r' % [s for s, v in seen.items() if v > 1])
         lost = valid_serials - set(seen)
@@ -168,6 +180,10 @@ def eval_iterator(case):
         if run['cap']:
             if any(len(g) > run['cap'] for g in mols):
                 out.bad('iterator:cap-exceeded', 'cap %r sizes %r' % (run['cap'], [len(g) for g in mols]))
+        if plain:
+            out.nontrivial = is_nontrivial(truth)
+            out.label('plain fragment classes')
+            return _dedup(out) or out
         if run['hamming'] == 0 and run['radius'] == 0 and not run['cap']:
             got = sorted(tuple(g) for g in mols_valid)
             exp = sorted(tuple(sorted(v)) for v in truth_partition(truth, run['method']).values())
